@@ -18,14 +18,17 @@ EXTERNAL = {
     # the Python tokenizer, consumed eagerly by _tools.generated_tokens: unterminated strings, stray brackets and
     # backslashes give TokenError; inconsistent indentation in multi-line cells gives IndentationError/TabError
     "tokenize.generate_tokens": ("tokenize.TokenError", "builtins.SyntaxError"),
-    "codecs.lookup": ("builtins.LookupError",),  # encoding property
+    # encoding property: unknown name -> LookupError; a name with an embedded NUL or a lone surrogate -> ValueError
+    "codecs.lookup": ("builtins.LookupError", "builtins.ValueError"),
     # DateTime cells; a format with the same directive twice (rule DD.DD) makes _strptime compile a regex with a
     # repeated group name: re.error (CPython <= 3.12), not ValueError
     "time.strptime": ("builtins.ValueError", "re.error"),
     "builtins.eval": (ANY,),  # DistinctCount expression
     # files: a missing or unreadable file must stay an OSError (C18: exit code 3)
-    "io.open": ("builtins.OSError",),  # the encoding was validated with codecs.lookup by set_property
-    "builtins.open": ("builtins.OSError",),
+    # codecs.lookup() also knows codecs that are no text encodings (hex, base64, rot13, zlib ...): opening a text file
+    # with one of them is a LookupError ("is not a text encoding") unless set_property refuses them (TEXT_ENCODING_GUARD)
+    "io.open": ("builtins.OSError", "builtins.LookupError"),
+    "builtins.open": ("builtins.OSError", "builtins.LookupError"),
     "zipfile.ZipFile": ("builtins.OSError", "zipfile.BadZipFile"),
     "xlrd.open_workbook": ("builtins.OSError", "xlrd.XLRDError", ANY),  # truncated xls/xlsx: BadZipFile, struct.error, IndexError ...
     "xlrd.xldate_as_tuple": (ANY,),  # XLDateError family
@@ -65,6 +68,7 @@ NO_RAISE = {
     "importlib.util.module_from_spec": "plugin loading: arbitrary plugin code is outside the property (ASSUMPTIONS)",
     "importlib.util.spec_from_loader": "plugin loading", "inspect.getsourcefile": "plugin loading, diagnostics only",
     "io.BytesIO": "argument is the bytes object read from the archive", "io.StringIO": "row buffer / text given by the caller",
+    "re.match": "constant pattern", "re.search": "constant pattern", "re.fullmatch": "constant pattern", "glob.escape": "total on texts",
     "itertools.chain": "lazy concatenation", "itertools.islice": "limit is asserted to be >= 0 by validate() / Reader (API contract)",
     "logging.basicConfig": "set-up", "logging.getLogger": "set-up",
     "os.makedirs": "writes: only the --create / plugin helpers, not reading a CID or data",
@@ -114,14 +118,15 @@ METHODS = {
 
 # .read(...) depends on the receiver: a text stream decodes (UnicodeDecodeError), a zip archive member may be corrupt
 READ_RECEIVERS = {
-    "fixed_file": ("builtins.UnicodeDecodeError",),
+    # a decoder can also raise the base class: "UTF-16 stream does not start with BOM" is a plain UnicodeError
+    "fixed_file": ("builtins.UnicodeError",),
     "zip_archive": (ANY,),
 }
 
 # iterators that raise while being iterated, not when they are created
 LAZY_ITERATORS = {
-    "cutplace._compat.csv_reader": ("csv.Error", "builtins.UnicodeDecodeError"),
-    "csv.reader": ("csv.Error", "builtins.UnicodeDecodeError"),
+    "cutplace._compat.csv_reader": ("csv.Error", "builtins.UnicodeError"),
+    "csv.reader": ("csv.Error", "builtins.UnicodeError"),
 }
 
 # methods resolved by class-hierarchy analysis on their (distinctive) name when the receiver type is unknown
@@ -149,6 +154,10 @@ def lookup_external(name, call):
         return ()
     if name == "builtins.int" and not call.args:
         return ()
+    if name in ("io.open", "builtins.open"):
+        encoding = next((keyword.value for keyword in call.keywords if keyword.arg == "encoding"), None)
+        if encoding is None or isinstance(encoding, ast.Constant):
+            classes = tuple(cls for cls in classes if cls != "builtins.LookupError")  # a literal encoding is a text encoding
     return classes
 
 
